@@ -698,6 +698,50 @@ impl Cluster {
         r
     }
 
+    /// several client sessions on node i at once: their commands interleave at nun-db's lock acquisitions under an
+    /// E2 baton schedule (one runnable thread at a time); what they replicate is delivered afterwards by `run`.
+    /// Ok(per session: reply texts) or Err(watchdog text)
+    pub fn clients_interleaved_with(&mut self, i: usize, programs: Vec<Vec<String>>, schedule: &[u16], sites: fn(&str) -> bool) -> Result<(Vec<Vec<String>>, u64), String> {
+        let dbs = self.nodes[i].node.as_ref().unwrap().dbs.clone();
+        use_dir(&self.nodes[i].dir);
+        self.log(format!("clients-interleaved@n{} {:?} schedule {:?}", i, programs, schedule));
+        let tasks: Vec<Box<dyn FnOnce(&crate::sched::TaskCtx) -> Vec<String> + Send>> = programs
+            .into_iter()
+            .map(|lines| {
+                let dbs = dbs.clone();
+                let f: Box<dyn FnOnce(&crate::sched::TaskCtx) -> Vec<String> + Send> = Box::new(move |t: &crate::sched::TaskCtx| {
+                    let (mut c, mut rx) = Client::new_empty_and_receiver();
+                    let mut out = vec![];
+                    for l in lines {
+                        t.pause("cmd");
+                        let r = process_request(&l, &dbs, &mut c);
+                        while let Ok(Some(_)) = rx.try_next() {}
+                        out.push(crate::node::resp_text(&r));
+                    }
+                    process_request("unwatch-all", &dbs, &mut c);
+                    c.left(&dbs);
+                    out
+                });
+                f
+            })
+            .collect();
+        let (results, info) = crate::sched::run(tasks, schedule, sites)?;
+        self.mark_dirty(i);
+        self.absorb_offers();
+        self.flush_channels();
+        let mut out = vec![];
+        for r in results {
+            match r {
+                Ok(v) => out.push(v),
+                Err(p) => {
+                    self.panics.push(format!("n{} interleaved client: {}", i, p));
+                    out.push(vec![]);
+                }
+            }
+        }
+        Ok((out, info.switches))
+    }
+
     /// the process of node i stops (kill): every connection it takes part in is closed
     pub fn kill(&mut self, i: usize) {
         self.log(format!("kill n{}", i));
